@@ -20,7 +20,10 @@
 (*             found after the kill (crash), whether the follow-up          *)
 (*             succeeded (ok), whether --reconfigure was used (reconf),     *)
 (*             per option which of old/new/default values it has now        *)
-(*             (labels), the state files after the follow-up (after).       *)
+(*             (labels), the state files after the follow-up (after; a      *)
+(*             build.ninja that ninja could not load is "garbled"), whether *)
+(*             build.ninja equals the one a reference reconfigure of the    *)
+(*             recovered directory writes (manifest_same).                  *)
 (*             Judged against Run(s, k) and RecoverOutcome.                 *)
 (* SpecReplay  one case = an abstract crash state of the model written to   *)
 (*             a real configured directory (files removed / truncated),     *)
@@ -81,7 +84,7 @@ SetToSortedClasses(S) == (IF "d" \in S THEN <<"d">> ELSE <<>>) \o (IF "m" \in S 
 LostObserved(c) == SetToSortedClasses({ c.labels[j].cls : j \in BadOptions(c) })
 \* state files left torn by the follow-up.  The private copy of a piped machine file that was being written
 \* when a *first* setup was killed is an orphan - nothing names it, the pipe is gone - and not state of that run.
-TornAfter(c, m) == { j \in 1..Len(c.after) : /\ c.after[j].st \in {"empty", "partial"}
+TornAfter(c, m) == { j \in 1..Len(c.after) : /\ c.after[j].st \in {"empty", "partial", "garbled"}
                                               /\ ~(c.after[j].f = MFile /\ ~ReadsMachineFiles(m)) }
 
 V(c, clause, kind, m, note) ==
@@ -102,7 +105,9 @@ JudgeState(c, scr, m) ==
         ELSE IF scr.failed /\ (\E j \in 1..Len(c.labels) : "old" \notin Range(c.labels[j].is))
              THEN V(c, "RolledBack", scr.kind, m, ToString({ c.labels[j] : j \in { n \in 1..Len(c.labels) : "old" \notin Range(c.labels[n].is) } }))
         ELSE IF TornAfter(c, m) # {} THEN V(c, "StateReadable", scr.kind, m, ToString({ c.after[j] : j \in TornAfter(c, m) }))
+        ELSE IF ~c.manifest_same THEN V(c, "ManifestReproducible", scr.kind, m, "build.ninja differs from a reference reconfigure")
         ELSE IF ~o.ok THEN V(c, "ModelDisagrees", scr.kind, m, "model-predicted-failure")
+        ELSE IF ~RecoveryClean(scr, m) THEN V(c, "ModelDisagrees", scr.kind, m, "model-predicted-garbled-file")
         ELSE IF Unpredicted(c, o) # {} THEN V(c, "ModelDisagrees", scr.kind, m,
                                                   ToString(<<o, { c.labels[j] : j \in Unpredicted(c, o) }>>))
         ELSE V(c, "ok", scr.kind, m, "")
